@@ -198,3 +198,154 @@ func vh_direct_writer() {
 	vAssert(len(sem) == wantHeld, "C07/direct/semaphore-released")
 	vObserve("n", n)
 }
+
+// ---- coalescing writer: the caller side (writeCoalescer.writeContext) ----
+//
+// Thread-modular: the flusher goroutine is the environment. Rely (decided by vh_flush / vh_flusher):
+// the flusher owns every request it received from writeCh, writes its bytes (or fails to) and answers
+// exactly once on the request's result channel with (n, err), err == nil iff n == len(p).
+// Guarantee asserted here: once the request has been handed over the caller returns exactly the
+// flusher's verdict - in particular it never reports "nothing written" (n == 0 with the context's
+// error, which Conn.exec takes as licence to reuse the stream id) for bytes the flusher still owns;
+// if the request was not handed over, no bytes can reach the wire and (0, err != nil) is returned.
+
+var (
+	vCoW      *writeCoalescer
+	vCoCtx    *vCtx
+	vCoResult writeResult
+	vCoLen    int
+)
+
+// runs where the real code calls testEnqueuedHook: right after the hand-over. The flusher answers
+// (now or later: the result channel has capacity 1, so "later" is the same state with the caller
+// already waiting) and the caller's context may end meanwhile.
+func vCoEnqueued() {
+	req := vLastSent(vCoW.writeCh).(writeRequest)
+	vCoResult = writeResult{n: vInt("flushed_n")}
+	vAssume(vCoResult.n >= 0 && vCoResult.n <= vCoLen)
+	if vCoResult.n < vCoLen {
+		vCoResult.err = vErrShort
+	}
+	req.resultChan <- vCoResult
+	if vBool("ctx_ends_after_enqueue") && vCoCtx.err == nil {
+		close(vCoCtx.done)
+		vCoCtx.err = context.Canceled
+	}
+}
+
+func vh_coalesced_writer() {
+	conn := &vConnStub{}
+	L := vInt("L")
+	vAssume(L >= 1 && L < 1<<31)
+	vCoLen = L
+	p := vSliceOfLen(L)
+	ctx := &vCtx{done: make(chan struct{})}
+	if vBool("ctx_done") {
+		close(ctx.done)
+		ctx.err = context.Canceled
+	}
+	quit := make(chan struct{})
+	if vBool("conn_closed") {
+		close(quit)
+	}
+	w := &writeCoalescer{c: conn, writeCh: make(chan writeRequest), quit: quit, timeout: time.Duration(vI64("timeout"))}
+	vEnvChan(w.writeCh) // the flusher is always willing to receive
+	vCoW, vCoCtx, vCoResult = w, ctx, writeResult{}
+	w.testEnqueuedHook = vCoEnqueued
+	n, err := w.writeContext(ctx, p)
+	sent := vSentOn(w.writeCh)
+	vAssert(sent <= 1, "C07/coalesced/frame-handed-over-at-most-once")
+	if sent == 0 {
+		vAssert(n == 0 && err != nil, "C07/coalesced/not-handed-over-leaves-no-bytes")
+	} else {
+		req := vLastSent(w.writeCh).(writeRequest)
+		vAssert(vSameSlice(req.data, p), "C07/coalesced/whole-frame-handed-over")
+		vAssert(n == vCoResult.n && err == vCoResult.err, "C07/coalesced/caller-gets-the-flushers-verdict")
+		vAssert((err == nil) == (n == L), "C07/coalesced/success-only-if-whole-frame-written")
+	}
+	vAssert(conn.writeCalls == 0, "C07/coalesced/caller-never-writes-itself")
+}
+
+// ---- coalescing writer: the flusher loop (writeCoalescer.writeFlusherImpl) ----
+//
+// The loop is run for a bounded number of iterations: the environment offers, per iteration, a new
+// request, a timer tick or quit (select forks over the ready cases); after `steps` iterations quit is
+// the only case left. Asserted: every request received gets exactly one result; requests are flushed
+// in arrival order, each in exactly one WriteTo batch; a tick with nothing queued writes nothing new;
+// on quit every queued request is answered (0, err != nil) and nothing is written.
+
+func vh_flusher() {
+	steps := vBound("steps")
+	conn := &vConnStub{}
+	quit := make(chan struct{})
+	w := &writeCoalescer{c: conn, writeCh: make(chan writeRequest, steps), quit: quit}
+	timerC := make(chan time.Time, steps)
+	resets := 0
+	var chans []chan writeResult
+	var bufs [][]byte
+	// script: the order of the environment's offers
+	nreq, nticks := 0, 0
+	for i := 0; i < steps; i++ {
+		if vBool("offer_is_request") {
+			rc := make(chan writeResult, 1)
+			b := vSliceOfLen(1 + i)
+			chans = append(chans, rc)
+			bufs = append(bufs, b)
+			w.writeCh <- writeRequest{resultChan: rc, data: b}
+			nreq++
+		} else {
+			timerC <- time.Time{}
+			nticks++
+		}
+	}
+	close(quit)
+	// every WriteTo succeeds completely (partial writes are vh_flush's subject)
+	vWTcalls, vWTseen, vWTerr = 0, nil, nil
+	vFlSeen = nil
+	w.writeFlusherImpl(timerC, func() { resets++ })
+	// the loop ended on quit; which requests it had received is whatever left writeCh
+	received := nreq - len(w.writeCh)
+	answered, ok := 0, true
+	for i := 0; i < nreq; i++ {
+		if i < received {
+			vAssert(len(chans[i]) == 1, "C07/flusher/every-received-request-gets-exactly-one-result")
+			if len(chans[i]) == 1 {
+				r := <-chans[i]
+				answered++
+				if r.err == nil {
+					ok = ok && r.n == len(bufs[i])
+				} else {
+					ok = ok && r.n == 0
+				}
+			}
+		} else {
+			vAssert(len(chans[i]) == 0, "C07/flusher/no-result-for-a-request-never-received")
+		}
+	}
+	vAssert(ok, "C07/flusher/result-is-whole-frame-or-nothing-when-writes-succeed")
+	// buffers reach WriteTo in arrival order, each once
+	k := 0
+	inOrder := true
+	for _, b := range vFlSeen {
+		if k < len(bufs) && vSameSlice(b, bufs[k]) {
+			k++
+		} else {
+			inOrder = false
+		}
+	}
+	vAssert(inOrder && k <= received, "C07/flusher/frames-flushed-once-in-arrival-order")
+	vObserve("received", received)
+}
+
+var vFlSeen [][]byte
+
+// WriteTo stub for the flusher harness: complete success, remembers every buffer it was given.
+func vstubBuffersWriteToAll(v *net.Buffers, w io.Writer) (int64, error) {
+	var n int64
+	for _, b := range *v {
+		vFlSeen = append(vFlSeen, b)
+		n += int64(len(b))
+	}
+	*v = nil
+	return n, nil
+}
